@@ -60,6 +60,8 @@ type DocSpec struct {
 	TextOps  int  `json:"text_ops"`  // 0 Tj only, 1 TJ arrays, 2 mixed incl. Tm / T* positioning
 	FormXObj bool `json:"form_xobj"` // some lines live in a Form XObject
 
+	BlankPages    bool `json:"blank_pages,omitempty"` // some pages show no text at all
+	Headings      bool `json:"headings,omitempty"`    // some lines are short and set much larger; body lines are indented differently
 	StdWidths     bool `json:"std_widths,omitempty"` // standard Type1 fonts carry their own /Widths (content level: they change text geometry)
 	ForceCMapForm int `json:"force_cmap_form,omitempty"` // 0 = drawn per font; 1 bfchar only, 2 bfrange, 3 bfrange with arrays
 
@@ -668,11 +670,25 @@ func (d *docState) makeLines(pageIdx int, r *sim.Rand) []Line {
 	var lines []Line
 	y := 720.0
 	size := float64(sim.Pick(r, []int{10, 11, 12}))
+	if sp.BlankPages && pageIdx%100 != 1 && r.Pct(35) {
+		return nil // a page that shows no text (never the second page, so some text remains)
+	}
 	for i := 0; i < n; i++ {
 		fi := r.Intn(len(d.fonts))
 		serial := pageIdx*100 + i + 1 + 1000*d.w.revs
-		lines = append(lines, Line{Font: fi, Text: d.lineText(d.fonts[fi], serial, r), X: 72, Y: y, Size: size})
-		y -= size * 1.5
+		ln := Line{Font: fi, Text: d.lineText(d.fonts[fi], serial, r), X: 72, Y: y, Size: size}
+		if sp.Headings && r.Pct(25) {
+			// a short line set in a much larger size, anywhere on the page, and body lines that
+			// are indented differently
+			ln.Size = float64(sim.Pick(r, []int{18, 20, 24}))
+			if f := d.fonts[fi]; f.HasSpace() {
+				ln.Text = "Section " + strconv.Itoa(serial)
+			}
+		} else if sp.Headings && r.Pct(30) {
+			ln.X = float64(sim.Pick(r, []int{90, 108, 144}))
+		}
+		lines = append(lines, ln)
+		y -= ln.Size * 1.5
 	}
 	return lines
 }
